@@ -1381,6 +1381,8 @@ impl Cluster {
                             .map(|(j, det)| match det {
                                 None => json!({"job": j.as_num(), "found": false}),
                                 Some(det) => json!({"job": j.as_num(), "found": true,
+                                    "status": std::panic::catch_unwind(std::panic::AssertUnwindSafe(|| format!("{:?}", hyperqueue::client::status::job_status(&det.info))))
+                                        .unwrap_or_else(|_| { let _ = crate::panics::take(); "Panic".to_string() }),
                                     "n_tasks": det.info.n_tasks, "open": det.info.is_open,
                                     "cnt": counters_json(&det.info.counters),
                                     "tasks": det.tasks.iter().map(|(t, i)| json!({"t": j.as_num() as u64 * 1000 + t.as_num() as u64, "s": state_name(&i.state)})).collect::<Vec<_>>()}),
@@ -1388,7 +1390,7 @@ impl Cluster {
                             .collect();
                         json!(v)
                     }
-                    _ => json!({"error": true}),
+                    _ => json!([]),
                 };
                 ("Query".into(), json!({"job": job}), r)
             }
